@@ -285,7 +285,8 @@ Record lst := {
   l_fbr : bool;                 (* br reads through ctx.fbr (acquireByteReader) *)
   l_rd : reader;                (* buf = br's buffer ([] when br == nil) *)
   l_off : nat;                  (* stream bytes consumed by completed requests *)
-  l_dirty : bool                (* bw != nil && bw.Buffered() > 0 *)
+  l_dirty : bool;               (* bw != nil && bw.Buffered() > 0 *)
+  l_noresp : bool               (* ctx.hijackNoResponse left behind by the requests served so far *)
 }.
 
 Inductive iter_end := Next (s : lst) | Exit | ExitHijack.
@@ -307,11 +308,13 @@ Definition release_rule (b : bytes) (fbr : bool) : bool * bool * bytes :=
   then (false, false, [])     (* br = nil: its (empty) buffer is gone *)
   else (true, fbr, b).
 
-(* the handler's effect; st0 = status already set by a rejected expectation; cont = continueReadingRequest *)
-Definition hstate0 (st0 : Z) : hstate :=
-  {| h_status := st0; h_rh := rhdr_init; h_hijack := false; h_noresp := false; h_timeout := false; h_skip := false; h_tclose := false |}.
-Definition req_hstate (num : N) (q : req_sum) (cont : bool) (st0 : Z) : hstate :=
-  if cont then run_handler (handler E num q) (hstate0 st0) else hstate0 st0.
+(* the handler's effect; st0 = status already set by a rejected expectation; cont = continueReadingRequest;
+   nr0 = ctx.hijackNoResponse as earlier requests on this connection left it (the RequestCtx is kept between the
+   requests of a connection; ctx.hijackHandler is nil at this point: the loop cleared it after the previous request) *)
+Definition hstate0 (st0 : Z) (nr0 : bool) : hstate :=
+  {| h_status := st0; h_rh := rhdr_init; h_hijack := false; h_noresp := nr0; h_timeout := false; h_skip := false; h_tclose := false |}.
+Definition req_hstate (num : N) (q : req_sum) (cont : bool) (st0 : Z) (nr0 : bool) : hstate :=
+  if cont then run_handler (handler E num q) (hstate0 st0 nr0) else hstate0 st0 nr0.
 
 (* s.MaxRequestsPerConn > 0 && connRequestNum >= uint64(s.MaxRequestsPerConn) *)
 Definition max_reached (num : N) : bool := ((0 <? max_reqs cfg) && (max_reqs cfg <=? num))%N.
@@ -352,9 +355,9 @@ Definition hj_src_of (br fbr : bool) : hj_src := if br then (if fbr then HjBrFbr
 
 (* From "store req.ConnectionClose ..." to the end of the loop body. *)
 Definition finish_request (num : N) (q : req_sum) (cont : bool) (cc0 : bool) (st0 : Z)
-           (br fbr : bool) (b : bytes) (cs : list bytes) (t : tail) (off : nat) (dirty : bool)
+           (br fbr : bool) (b : bytes) (cs : list bytes) (t : tail) (off : nat) (dirty : bool) (nr0 : bool)
   : list event * iter_end :=
-  let h := req_hstate num q cont st0 in
+  let h := req_hstate num q cont st0 nr0 in
   let ev_disp := if cont then [Dispatch num q] else [] in
   let hijack := h_hijack h in
   let noresp := h_noresp h && hijack in         (* ctx.hijackNoResponse && hijackHandler != nil *)
@@ -376,7 +379,8 @@ Definition finish_request (num : N) (q : req_sum) (cont : bool) (cc0 : bool) (st
     then (ev_disp ++ ev_resp ++ [St StIdle] ++ (if dirty1 then [Flush] else []), Exit)
     else (ev_disp ++ ev_resp ++ [St StIdle],
           Next {| l_num := num; l_br := br; l_fbr := fbr; l_rd := {| buf := b; chunks := cs; tl := t |};
-                  l_off := off; l_dirty := dirty1 |}).
+                  l_off := off; l_dirty := dirty1;
+                  l_noresp := false (* `ctx.hijackNoResponse = false` right after the flag was read: nothing is carried over *) |}).
 
 (* ---- one iteration of the `for` loop, in three steps ---- *)
 
@@ -418,7 +422,7 @@ Definition after_head (s : lst) (fbr dirty : bool) (q : req_sum) (hn : nat) (b2 
     (* readLimitBody returns without reading the body; the reader may be released *)
     let '(br, fbr', b3) := release_rule b2 fbr in
     (* continueReadingRequest = false; br.Reset(ctx.c) drops what is buffered; connectionClose = true *)
-    let reject (st : Z) := finish_request num q false true st br fbr' [] cs1 t (off + hn) dirty in
+    let reject (st : Z) := finish_request num q false true st br fbr' [] cs1 t (off + hn) dirty (l_noresp s) in
     (* write + Flush "100 Continue"; br = acquireReader(ctx) if nil; ContinueReadBody; every error is answered *)
     let go_on :=
       let ev_c := [Resp continue_resp; Flush] in
@@ -427,7 +431,7 @@ Definition after_head (s : lst) (fbr dirty : bool) (q : req_sum) (hn : nat) (b2 
       | RbEnd b' => (ev_c ++ fst (error_exit (match body_end F q b' t with Some e => e | None => EcOther end)), Exit)
       | RbOk bn b4 cs4 =>
           let '(br2, fbr2, b6) := release_rule (skipn bn b4) (br && fbr') in
-          let r := finish_request num q true false StatusOK br2 fbr2 b6 cs4 t (off + hn + bn) false in
+          let r := finish_request num q true false StatusOK br2 fbr2 b6 cs4 t (off + hn + bn) false (l_noresp s) in
           (ev_c ++ fst r, snd r)
       end in
     match xmode cfg with
@@ -447,7 +451,7 @@ Definition after_head (s : lst) (fbr dirty : bool) (q : req_sum) (hn : nat) (b2 
                   end
     | RbOk bn b3 cs3 =>
         let '(br, fbr', b5) := release_rule (skipn bn b3) fbr in
-        finish_request num q true false StatusOK br fbr' b5 cs3 t (off + hn + bn) dirty
+        finish_request num q true false StatusOK br fbr' b5 cs3 t (off + hn + bn) dirty (l_noresp s)
     end.
 
 (* 2. the head.  Responses of pipelined requests still in bw: readLoop once, Flush before waiting for more input *)
@@ -504,7 +508,7 @@ Definition perip_resp : resp := {| r_kind := RkFast; r_status := StatusTooManyRe
 
 Definition lst_init (rd : reader) : lst :=
   {| l_num := 0%N; l_br := false; l_fbr := false; l_rd := {| buf := []; chunks := buf rd :: chunks rd; tl := tl rd |};
-     l_off := 0; l_dirty := false |}.
+     l_off := 0; l_dirty := false; l_noresp := false |}.
 
 (* what follows serveConnCounted in workerFunc / ServeConn, and hijackConnHandler's end *)
 Definition after_loop (r : loop_end) : list event :=
